@@ -10,6 +10,9 @@ def jobs(tier):
         dict(name='fixed-table', harness=H, entry='main_c04',
              defines=dict(NN=4, NE=4, NS=1, NM=1, FIXED_TABLE=1, MAXS=3, DEFAULT_OPTIONS_ONLY=1, ROOTS_PASS=1), timeout=900,
              require_tags={'end': 1, 'accept': 1}),
+        dict(name='n3e2-populations-individuals', harness=H, entry='main_c04',
+             defines=dict(NN=3, NE=2, NS=0, NM=0, TP_HI=0, SP_HI=1, MAXS=2, DEFAULT_OPTIONS_ONLY=1, H_NODE_REFS=1), timeout=900,
+             require_tags={'end': 1, 'accept': 1, 'population-dropped': 1}),
         dict(name='n3e2-reduce-to-sites', harness=H, entry='main_c04',
              defines=dict(NN=3, NE=2, NS=2, NM=1, TP_HI=0, SP_HI=0, MAXS=2, DEFAULT_OPTIONS_ONLY=1, REDUCE_PASS=1), timeout=900,
              require_tags={'end': 1, 'accept': 1, 'reduced-edges': 1}),
@@ -32,11 +35,11 @@ BOUNDS = {
              'filter_nodes=False + update_sample_flags=False}: ancestry at every position class, node_map, flags, idempotence; '
              '(b) one fixed 4-node 4-edge 5-tree sequence (internal sample, gap) with a site at a symbolic position, a '
              'mutation on an enumerated node and every ordered list of 1-3 nodes under the default options and keep_input_roots: also genotypes, '
-             'site filtering and (known mutation times) validity of the mutation placement; (c) reduce_to_site_topology on the 3-node classes with 2 sites at symbolic positions and lists of 1-2 nodes: ancestry at every site = simplified input ancestry there, every output edge covers a site',
+             'site filtering and (known mutation times) validity of the mutation placement; (c) reduce_to_site_topology on the 3-node classes with 2 sites at symbolic positions and lists of 1-2 nodes: ancestry at every site = simplified input ancestry there, every output edge covers a site; (d) the 3-node classes with 3 populations and 2 individuals referenced by nodes: filter_populations / filter_individuals on and off (exactly the referenced rows survive in order, nodes keep their rows by tag) and keep_unary_in_individuals',
     'thorough': 'plus all sample/time profiles and lists of 3 nodes on the 3-node classes, and 4-node 3-edge classes under the '
                 'default options (time-boxed)',
 }
-OUTSIDE = ['keep_unary_in_individuals; reduce_to_site_topology beyond 3 nodes / 2 sites', 'individual/population filtering (tables have none here)',
+OUTSIDE = ['reduce_to_site_topology beyond 3 nodes / 2 sites', 'individual parents, migrations',
            'migrations', 'provenance, Python defaults']
 ASSUMPTIONS = ['oracle: presence rule per position from the simplify documentation, evaluated on the input rows',
                'genotypes compared through the real Variant decoder (checked in C03)']
